@@ -1109,6 +1109,26 @@ Proof.
   - intros j Hj. rewrite isnode_dealloc. exact Hj.
   - intros j E. discriminate.
 Qed.
+Lemma recsame_alloc_raw g : recsame g (fst (do_alloc g BRaw)) None.
+Proof.
+  constructor; try reflexivity.
+  - intros k _. rewrite isrec_alloc. destruct (Nat.eqb_spec k (nheap g)) as [->|]; [|reflexivity].
+    unfold isrec. rewrite getc_ge by lia. reflexivity.
+  - intros k _. apply grec_alloc_raw.
+  - intros k _ Hr. rewrite cs_of_alloc. destruct (Nat.eqb_spec k (nheap g)) as [->|]; [|reflexivity]. apply isrec_lt in Hr. lia.
+  - intros k Hk. rewrite isnode_alloc. destruct (Nat.eqb_spec k (nheap g)) as [->|]; [|exact Hk]. apply isnode_lt in Hk. lia.
+  - intros k E. discriminate.
+Qed.
+Lemma recsame_dealloc_raw g d : recsame g (fst (do_dealloc_raw g d)) None.
+Proof.
+  destruct (dealloc_raw_fields g d) as (F1 & F2 & F3 & F4 & F5 & F6 & F7 & F8 & F9 & F10 & F11 & F12).
+  constructor; auto.
+  - intros j _. apply isrec_dealloc_raw.
+  - intros j _. apply grec_dealloc_raw.
+  - intros j _ Hr. apply cs_of_dealloc_raw. right. exact Hr.
+  - intros j Hj. rewrite isnode_dealloc_raw. exact Hj.
+  - intros j E. discriminate.
+Qed.
 Lemma zlog_lt g ls k : InvB g ls -> In k (zlog g) -> k < nheap g.
 Proof. intros IB H. apply isrec_lt. apply (b_rec _ _ IB k H). Qed.
 
@@ -1267,7 +1287,7 @@ Qed.
 Ltac recsame_tac :=
   repeat first [apply recsame_fault | apply recsame_misuse | apply recsame_mtx | apply recsame_head | apply recsame_tail
                | apply recsame_pos | apply recsame_commit];
-  first [ apply recsame_refl | apply recsame_alloc_node | apply recsame_null
+  first [ apply recsame_refl | apply recsame_alloc_node | apply recsame_alloc_raw | apply recsame_dealloc_raw | apply recsame_null
         | (apply recsame_setn; eauto) | (apply recsame_construct_node; eauto)
         | (apply recsame_destroy_node; eauto) | (apply recsame_dealloc_node; eauto) ].
 Lemma InvB_step : forall g ls t c l g' l' es,
